@@ -259,6 +259,7 @@ pub fn run(ctx: &Ctx) -> i32 {
     }
     rep.sweep("Time from text: one to three sub-second fields x {all 9, all 0, all 5} x 6 clock texts x 4 zones, and from_str", texts.len() as u64, "whatever is accepted must be a time of day below 24:00:00", |i, acc| case_parse_inside_day(&texts[i as usize].0, &texts[i as usize].1, acc));
     machine::run_time_machine(&mut rep, if ctx.thorough { 4 } else { 3 });
+    machine::run_time_paths(&mut rep, 3);
     let _ = cal::MIN_DAY;
     rep.finish()
 }
